@@ -41,10 +41,12 @@ def stream_env(ip):
         if name == "read":
             script = o.state["replies"]
             i = ctx.ghost.reads
-            if i >= len(script):
-                raise Unsupported("more reads than scripted replies")
             ctx.ghost.reads += 1
-            r = script[i](ctx) if callable(script[i]) else script[i]
+            if i >= len(script):
+                # the code reads more often than the exchange the driver scripted: every further reply is arbitrary
+                r = sym_bytes_atleast(ctx, f"R{i + 1}", 0, 1024)
+            else:
+                r = script[i](ctx) if callable(script[i]) else script[i]
             ctx.ghost.events.append(("read", r))
             return r
         if name == "at_eof":
